@@ -20,7 +20,7 @@ func c39isPrefix(a, b []byte) bool { // a is a prefix of b
 // VerifC39: HasConflictingPrefixes(m, vm) <=> some prefix in the combined list is a prefix of another one.
 func VerifC39() {
 	maxLen := verifParam("maxPrefixLen", 2, 3)
-	maxVM := verifParam("maxVMPrefixes", 2, 3)
+	maxVM := verifParam("maxVMPrefixes", 2, 2)
 	m := NewManager(c39prefix("h", maxLen), c39prefix("f", maxLen), c39prefix("t", maxLen))
 	nvm := verifChoose("nvm", maxVM+1)
 	var vm [][]byte
